@@ -91,6 +91,15 @@ partial def pPy : P PyVal := do
   | "S" =>
     let s ← pStrV
     return .str s (← pOptXF)
+  | "NI" =>
+    -- NumPy / JAX integer scalar: `NI s <int>` numpy.integer instance, `NI np|jax <int>` 0-d integer array
+    let f ← tok
+    let form : IntForm ← (match f with
+      | "s" => pure IntForm.npScalar
+      | "np" => pure (IntForm.arr0 .np)
+      | "jax" => pure (IntForm.arr0 .jax)
+      | _ => throw s!"intform? {f}")
+    return .npint form (← pInt)
   | "A" =>
     let lib ← pLib
     let shape ← pList pNat
@@ -119,6 +128,7 @@ partial def outPy : PyVal → String
   | .int i => s!"I {i}"
   | .float x => "F " ++ outXF x
   | .str s n => "S " ++ outStr s ++ (match n with | none => " N" | some x => " Y " ++ outXF x)
+  | .npint f i => s!"NI {match f with | .npScalar => "s" | .arr0 .np => "np" | .arr0 .jax => "jax"} {i}"
   | .arr lib shape data =>
     " ".intercalate (["A", (match lib with | .np => "np" | .jax => "jax"), toString shape.length]
       ++ shape.map toString ++ data.map outXF)
